@@ -633,7 +633,8 @@ def minimize_lbfgsb(
                         jac=grad,
                         nfev=sf.nfev,
                         njev=sf.ngev,
-                        nit=istate.nit,
+                        # the iteration is completed, the counter is incremented below
+                        nit=istate.nit + 1,
                         status=istate.warnflag,
                         message=istate.task_str,
                         x=x,
